@@ -247,9 +247,12 @@ def asNumberM (d : Doc) : MVal F → F
 
 /-! ## Comparison dispatch (`logicalFuncs`) -/
 
+/-- `cmpStringStringF` after the repair: `=` and `!=` on the strings, the four relational operators
+on the numbers of the strings (`cmpNumberNumberF(op, stringToNumber(a), stringToNumber(b))`) -/
 def cmpStrF (op : Spec.CmpOp) (a b : String) : Bool :=
   match op with
-  | .eq => a == b | .ne => a != b | .lt => a < b | .le => a ≤ b | .gt => b < a | .ge => b ≤ a
+  | .eq => a == b | .ne => a != b
+  | _ => Spec.cmpNum (F := F) op (goParseFloat a) (goParseFloat b)
 
 inductive XType | boolean | number | string | nodeSet
   deriving DecidableEq, Repr
@@ -267,22 +270,41 @@ def cmpBoolF (op : Spec.CmpOp) (a b : Bool) : Bool :=
   | .eq => a == b | .ne => a != b
   | _ => Spec.cmpNum (F := F) op (if a then ofNat 1 else ofNat 0) (if b then ofNat 1 else ofNat 0)
 
+/-- `numberBesideBoolean`: the number a relational operator sees in an operand whose other operand
+is a boolean — a number itself, a string through `stringToNumber`, anything else (a node-set, a
+boolean) through `boolToNumber(asBool(v))` -/
+def numBesideBoolM (v : MVal F) : Except EErr F :=
+  match v with
+  | .num x => .ok x
+  | .str s => .ok (goParseFloat s)
+  | v => do let b ← asBoolM v; pure (if b then ofNat 1 else ofNat 0)
+
 def cmpM (d : Doc) (op : Spec.CmpOp) (m n : MVal F) : Except EErr Bool := do
   let t1 ← xtypeOf m
   let t2 ← xtypeOf n
   let sv := stringValue d
   match m, n with
-  | .bool a, _ => do let b ← asBoolM n; pure (cmpBoolF (F := F) op a b)
-  | _, .bool b => do let a ← asBoolM m; pure (cmpBoolF (F := F) op a b)
+  -- `cmpBooleanAny` / `cmpAnyBoolean` after the repair: relational operators on numbers
+  -- (`boolToNumber` of the boolean, `numberBesideBoolean` of the other operand), `=`/`!=` on truth values
+  | .bool a, _ =>
+    if op.isRel then do
+      let y ← numBesideBoolM n
+      pure (Spec.cmpNum op (if a then ofNat 1 else ofNat 0) y)
+    else do let b ← asBoolM n; pure (cmpBoolF (F := F) op a b)
+  | _, .bool b =>
+    if op.isRel then do
+      let x ← numBesideBoolM m
+      pure (Spec.cmpNum op x (if b then ofNat 1 else ofNat 0))
+    else do let a ← asBoolM m; pure (cmpBoolF (F := F) op a b)
   | .num a, .num b => pure (Spec.cmpNum op a b)
   | .num a, .str b => pure (Spec.cmpNum op a (goParseFloat b))
   | .num a, .nodes l => pure (l.any (fun x => Spec.cmpNum op a (goParseFloat (sv x))))
-  | .str a, .num b => pure (Spec.cmpNum op b (goParseFloat a : F))   -- operands swapped as in cmpStringNumeric
-  | .str a, .str b => pure (cmpStrF op a b)
-  | .str a, .nodes l => pure (l.any (fun x => cmpStrF op a (sv x)))
+  | .str a, .num b => pure (Spec.cmpNum op (goParseFloat a : F) b)   -- operands in order (cmpStringNumeric after the repair)
+  | .str a, .str b => pure (cmpStrF (F := F) op a b)
+  | .str a, .nodes l => pure (l.any (fun x => cmpStrF (F := F) op a (sv x)))
   | .nodes l, .num b => pure (l.any (fun x => Spec.cmpNum op (goParseFloat (sv x)) b))
-  | .nodes l, .str b => pure (l.any (fun x => cmpStrF op b (sv x)))   -- (literal, node value) as in cmpNodeSetString
-  | .nodes la, .nodes lb => pure (la.any (fun x => lb.any (fun y => cmpStrF op (sv x) (sv y))))
+  | .nodes l, .str b => pure (l.any (fun x => cmpStrF (F := F) op (sv x) b))   -- (node value, literal): operands in order (cmpNodeSetString after the repair)
+  | .nodes la, .nodes lb => pure (la.any (fun x => lb.any (fun y => cmpStrF (F := F) op (sv x) (sv y))))
   | _, _ => let _ := (t1, t2); .error (.crash .unknownType)
 
 def logicalVal (d : Doc) (op : String) (m n : MVal F) : Except EErr (MVal F) :=
